@@ -7,6 +7,9 @@ import (
 	"strings"
 	"testing"
 
+	"go.opentelemetry.io/collector/pdata/plog"
+	"go.opentelemetry.io/collector/pdata/pmetric"
+	"go.opentelemetry.io/collector/pdata/ptrace"
 	"google.golang.org/protobuf/proto"
 	"pgregory.net/rapid"
 
@@ -20,7 +23,7 @@ import (
 
 // Fault is one payload-level alteration of a BatchArrowRecords.
 type Fault struct {
-	Kind string `json:"kind"`           // relabel, drop, dup, dup_adjacent, swap, empty, unknown_id, stale_id
+	Kind string `json:"kind"`           // relabel, drop, dup, dup_adjacent, dup_relabel, swap, empty, unknown_id, stale_id
 	I    int    `json:"i"`              // payload index
 	J    int    `json:"j,omitempty"`    // second index (swap)
 	Type int32  `json:"type,omitempty"` // new payload type (relabel)
@@ -30,6 +33,8 @@ func (f Fault) String() string {
 	switch f.Kind {
 	case "relabel":
 		return fmt.Sprintf("relabel(%d->%d)", f.I, f.Type)
+	case "dup_relabel":
+		return fmt.Sprintf("dup_relabel(%d as %d)", f.I, f.Type)
 	case "swap":
 		return fmt.Sprintf("swap(%d,%d)", f.I, f.J)
 	default:
@@ -143,6 +148,19 @@ func applyFaults(bar *colarspb.BatchArrowRecords, faults []Fault, retired []stri
 				r = mainCopy
 			}
 			roles = append(roles, r)
+		case "dup_relabel":
+			// a copy of payload i, relabelled, appended: the two faults
+			// "duplicated" and "relabelled" on one payload
+			if colarspb.ArrowPayloadType(f.Type) == pl.Type {
+				return nil, false, 0, false
+			}
+			cl := proto.Clone(pl).(*colarspb.ArrowPayload)
+			cl.Type = colarspb.ArrowPayloadType(f.Type)
+			b.ArrowPayloads = append(b.ArrowPayloads, cl)
+			roles = append(roles, other)
+			if colarspb.ArrowPayloadType(f.Type) == mainType {
+				mainTouched = true // a second "main" record that is none
+			}
 		case "dup_adjacent":
 			cl := proto.Clone(pl).(*colarspb.ArrowPayload)
 			rest := append([]*colarspb.ArrowPayload{cl}, b.ArrowPayloads[f.I+1:]...)
@@ -317,6 +335,7 @@ func singleFaults(np int) []Fault {
 	for i := 0; i < np; i++ {
 		for _, ty := range relabelTargets {
 			fs = append(fs, Fault{Kind: "relabel", I: i, Type: ty})
+			fs = append(fs, Fault{Kind: "dup_relabel", I: i, Type: ty})
 		}
 		for _, k := range []string{"drop", "dup", "dup_adjacent", "empty", "unknown_id"} {
 			fs = append(fs, Fault{Kind: k, I: i})
@@ -330,10 +349,10 @@ func singleFaults(np int) []Fault {
 }
 
 func genFault(t *rapid.T, np int) Fault {
-	f := Fault{Kind: rapid.SampledFrom([]string{"relabel", "relabel", "drop", "dup", "dup_adjacent", "swap", "empty", "unknown_id", "stale_id"}).Draw(t, "fkind")}
+	f := Fault{Kind: rapid.SampledFrom([]string{"relabel", "relabel", "drop", "dup", "dup_adjacent", "dup_relabel", "swap", "empty", "unknown_id", "stale_id"}).Draw(t, "fkind")}
 	f.I = rapid.IntRange(0, np-1).Draw(t, "fi")
 	switch f.Kind {
-	case "relabel":
+	case "relabel", "dup_relabel":
 		f.Type = rapid.SampledFrom(relabelTargets).Draw(t, "ftype")
 	case "swap":
 		f.J = rapid.IntRange(0, np-1).Draw(t, "fj")
@@ -352,14 +371,48 @@ func genSegmentBatches(t *rapid.T, signal string, nb int) []Batch {
 	for b := 0; b < nb; b++ {
 		s.B = b
 		var bt Batch
-		if rapid.IntRange(0, 2).Draw(t, "canned") == 0 {
+		switch rapid.IntRange(0, 3).Draw(t, "canned") {
+		case 0:
 			bt = cannedBatch(signal, b)
-		} else {
+		case 1:
+			bt = bareBatch(signal, b)
+		default:
 			bt = genBatch(s, signal)
 		}
 		out = append(out, bt)
 	}
 	return out
+}
+
+// bareBatch is the opposite of cannedBatch: items without any attribute,
+// event, link or exemplar, so that the main payload is the only payload of the
+// batch and every related sub-stream of the consumer is still unopened.
+func bareBatch(signal string, salt int) Batch {
+	switch signal {
+	case Traces:
+		td := ptrace.NewTraces()
+		ss := td.ResourceSpans().AppendEmpty().ScopeSpans().AppendEmpty()
+		for i := 0; i < 3; i++ {
+			ss.Spans().AppendEmpty().SetName(fmt.Sprint("bare", salt, i))
+		}
+		return TracesBatch(td)
+	case Logs:
+		ld := plog.NewLogs()
+		sl := ld.ResourceLogs().AppendEmpty().ScopeLogs().AppendEmpty()
+		for i := 0; i < 3; i++ {
+			sl.LogRecords().AppendEmpty().Body().SetStr(fmt.Sprint("bare", salt, i))
+		}
+		return LogsBatch(ld)
+	default:
+		md := pmetric.NewMetrics()
+		sm := md.ResourceMetrics().AppendEmpty().ScopeMetrics().AppendEmpty()
+		for i := 0; i < 3; i++ {
+			m := sm.Metrics().AppendEmpty()
+			m.SetName(fmt.Sprint("bare", salt, i))
+			m.SetEmptyGauge().DataPoints().AppendEmpty().SetIntValue(int64(i))
+		}
+		return MetricsBatch(md)
+	}
 }
 
 // cannedBatch is a batch that is guaranteed to produce every related payload
